@@ -86,6 +86,7 @@ func coreConfig(phys physical.Backend, opt Options, rec *RecState) *vault.CoreCo
 		CredentialBackends: cb,
 		Logger:             log.NewNullLogger(),
 		RollbackPeriod:     24 * time.Hour,
+		EnableRaw:          true,
 	}
 }
 
